@@ -230,6 +230,6 @@ def gen_cases(draw):
 
 
 CLAUSES = [
-    Clause('hand-built-graphs', check_case, kind='random', strategy=ag_cases, budget={'quick': 5000, 'thorough': 40000}),
-    Clause('generated-graphs', check_case, kind='random', strategy=gen_cases, budget={'quick': 2500, 'thorough': 20000}),
+    Clause('hand-built-graphs', check_case, kind='random', strategy=ag_cases, budget={'quick': 5000, 'thorough': 120000}),
+    Clause('generated-graphs', check_case, kind='random', strategy=gen_cases, budget={'quick': 2500, 'thorough': 60000}),
 ]
